@@ -46,6 +46,9 @@ Check(t) ==
          ELSE IF pe.vol_exc # pe.full.vol_exc THEN <<"volume-fails-differently", "", Cardinality(J)>>
          ELSE IF pe.vol_exc = "" /\ Len(pe.vol) = Len(pe.full.vol) /\ ~SeqClose(pe.vol, pe.full.vol, 4) THEN <<"volume-after-binding", "", Cardinality(J)>>
          ELSE IF pe.vol_exc = "" /\ Len(pe.vol) # Len(pe.full.vol) /\ Len(pe.vol) # 1 /\ Len(pe.full.vol) # 1 THEN <<"volume-rows-after-binding", "", Cardinality(J)>>
+         \* one value on one side (nothing left to depend on): it is the value of every row of the other side
+         ELSE IF pe.vol_exc = "" /\ Len(pe.vol) = 1 /\ Len(pe.full.vol) > 1 /\ \E i \in DOMAIN pe.full.vol : ~SeqClose(pe.vol, <<pe.full.vol[i]>>, 4) THEN <<"volume-after-binding", "", Cardinality(J)>>
+         ELSE IF pe.vol_exc = "" /\ Len(pe.full.vol) = 1 /\ Len(pe.vol) > 1 /\ \E i \in DOMAIN pe.vol : ~SeqClose(<<pe.vol[i]>>, pe.full.vol, 4) THEN <<"volume-after-binding", "", Cardinality(J)>>
          ELSE IF pe.box_exc = "" /\ pe.full.box_exc = "" /\ pe.box_shape = pe.full.box_shape /\ ~SeqClose(pe.box, pe.full.box, 2) THEN <<"bounding-box-after-binding", "", Cardinality(J)>>
          ELSE IF ~HasBd(e) /\ \E i \in DOMAIN pe.samples : ~InTol(e, Q(pe.samples[i]), Tol) THEN <<"sample-after-binding-outside", "", Cardinality(J)>>
          \* the normal field of a boundary after binding is that of the original boundary at the joint rows
